@@ -58,11 +58,14 @@ LeakedIn(C) == {i \in 1..Cap : i > C.len /\ C.s[i].st = "l"}
 \*  e Key==Key   q Class==Class (borrowed form)   v Val==Val   c clone   d drop
 \*  p retain predicate   f entry closure   n source next   u Default
 Cb(kind, a, b) == <<kind, a, b>>
+\* in callback records a value object with tag t is written 100 + t (key and value tags overlap)
+VT(t) == 100 + t
 DropK(t) == Cb("d", t, 0)
+DropV(t) == Cb("d", VT(t), 0)
 \* destroying a pair runs the key's destructor, then the value's (a Set has unit values)
-PairDrops(kt, vt) == IF IsMap THEN <<DropK(kt), DropK(vt)>> ELSE <<DropK(kt)>>
+PairDrops(kt, vt) == IF IsMap THEN <<DropK(kt), DropV(vt)>> ELSE <<DropK(kt)>>
 \* locals are records [t |-> "k" | "v", id]; unit values are not objects
-LocalDrops(own) == [i \in 1..Len(own) |-> DropK(own[i].id)]
+LocalDrops(own) == [i \in 1..Len(own) |-> IF own[i].t = "k" THEN DropK(own[i].id) ELSE DropV(own[i].id)]
 KObj(id) == [t |-> "k", id |-> id]
 VObj(id) == [t |-> "v", id |-> id]
 VLocals(vt) == IF IsMap THEN <<VObj(vt)>> ELSE <<>>
@@ -119,7 +122,17 @@ CoreOps ==
     \cup {[name |-> "s_clear"], [name |-> "s_drop"]}
     \cup {[name |-> "s_drain", n |-> n, end |-> e] : n \in 0..A.len, e \in {"drop", "forget"}}
 
-AllOps == (IF "core" \in Fams THEN CoreOps ELSE {})
+EntryTakesV == {"or_insert", "or_insert_with", "or_insert_with_key", "and_modify", "occ_insert", "vac_insert"}
+EntryMethods == EntryTakesV \cup {"key", "or_default", "occ_key", "occ_get", "occ_get_mut", "occ_into_mut", "occ_remove",
+                                   "occ_remove_entry", "vac_key", "vac_into_key"}
+EntryOps == IF IsMap THEN {[name |-> "entry", m |-> m, k |-> ArgK(1, c), v |-> ArgV(1), w |-> NoWrite] : m \in EntryMethods, c \in Classes} ELSE {}
+UncheckedOps ==
+  IF IsMap /\ ~Adv
+  THEN {[name |-> "insert_unchecked", k |-> ArgK(1, c), v |-> ArgV(1)] : c \in {c \in Classes : A.len < Cap \/ c \in KeysIn(A)}}
+  ELSE {}
+
+AllOps == (IF "core" \in Fams THEN CoreOps ELSE {}) \cup (IF "entry" \in Fams THEN EntryOps ELSE {})
+          \cup (IF "unchecked" \in Fams THEN UncheckedOps ELSE {})
 
 \* ------------------------------------------------------------ start/end --
 \* which scan an op starts with: <<kind, stored-first, other tag, class>>
@@ -132,7 +145,7 @@ StartScan(l, on, kind, sf, ot, qc, ret) ==
 StartII(l, on, k, vt, upd, full, ret) ==
   [StartScan(l, on, "e", TRUE, k.kt, k.c, "ii_after") EXCEPT
      !.ii = [on |-> on, k |-> [kt |-> k.kt, c |-> k.c], vt |-> vt, upd |-> upd, full |-> full, ret |-> ret],
-     !.own = <<KObj(k.kt)>> \o VLocals(vt)]
+     !.own = VLocals(vt) \o <<KObj(k.kt)>>]
 
 Start(op) ==
   /\ pc = "idle"
@@ -145,6 +158,12 @@ Start(op) ==
             /\ pc' = "scan"
             /\ L' = StartII(l, "A", op.k, IF IsMap THEN op.v.vt ELSE 0, op.name \in {"insert_key_value", "s_replace"},
                             op.name = "checked_insert" /\ A.len >= Cap, "ins_tail")
+       [] op.name = "entry" ->
+            /\ pc' = "scan"
+            /\ L' = [StartScan(l, "A", "e", TRUE, op.k.kt, op.k.c, "en_after") EXCEPT
+                       !.own = <<KObj(op.k.kt)>> \o (IF op.m \in EntryTakesV THEN <<VObj(op.v.vt)>> ELSE <<>>)]
+       [] op.name = "insert_unchecked" ->
+            /\ pc' = "iu" /\ L' = [l EXCEPT !.own = <<VObj(op.v.vt), KObj(op.k.kt)>>]
        [] op.name \in {"retain", "s_retain"} -> pc' = "rt" /\ L' = l
        [] op.name \in {"clear", "s_clear"}   -> pc' = "clr0" /\ L' = l
        [] op.name \in {"drop", "s_drop"}     -> pc' = "drp" /\ L' = l
@@ -261,7 +280,7 @@ InsertTail ==
   /\ UNCHANGED <<A, T, budget, viol, hist>>
   /\ IF L.ex = <<>> THEN
        IF L.op.name = "checked_insert" /\ L.ii.full    \* None: key and value are dropped by the callee
-       THEN pc' = "dropping" /\ L' = GoDrop([L EXCEPT !.own = <<>>], LocalDrops(<<KObj(L.ii.k.kt)>> \o VLocals(L.ii.vt)), "done")
+       THEN pc' = "dropping" /\ L' = GoDrop([L EXCEPT !.own = <<>>], LocalDrops(VLocals(L.ii.vt) \o <<KObj(L.ii.k.kt)>>), "done")
        ELSE pc' = "done" /\ L' = L
      ELSE IF L.op.name \in {"insert_key_value", "s_replace"} THEN pc' = "done" /\ L' = L
      ELSE pc' = "dropping" /\ L' = GoDrop(L, <<DropK(L.ex[1])>>, "done")   \* (the displaced value is in the return place: leaked if this panics)
@@ -273,7 +292,7 @@ RetainStep ==
   /\ LET i == L.i IN
      IF i > A.len THEN pc' = "done" /\ L' = L /\ UNCHANGED <<A, budget, viol, hist>>
      ELSE LET sl == A.s[i] IN
-          /\ hist' = Append(hist, Cb("p", sl.kt, sl.vt))
+          /\ hist' = Append(hist, Cb("p", sl.kt, IF IsMap THEN VT(sl.vt) ELSE 0))
           /\ viol' = Note(viol, i <= Cap /\ sl.st = "l", "retain ran its predicate on a slot that holds no live element")
           /\ \/ Inject /\ UNCHANGED A
              \/ /\ UNCHANGED budget
@@ -324,7 +343,7 @@ DrainNext ==
 \* a panic inside a formatter is caught there and the episode goes on
 FmtCbs(C, lo, hi) ==
   LET RECURSIVE F(_)
-      F(i) == IF i > hi THEN <<>> ELSE (IF IsMap THEN <<Cb("t", C.s[i].kt, 0), Cb("t", C.s[i].vt, 0)>> ELSE <<>>) \o F(i + 1)
+      F(i) == IF i > hi THEN <<>> ELSE (IF IsMap THEN <<Cb("t", C.s[i].kt, 0), Cb("t", VT(C.s[i].vt), 0)>> ELSE <<>>) \o F(i + 1)
   IN F(lo)
 DrainDebug ==
   /\ pc = "dr_dbg"
@@ -364,6 +383,85 @@ UnwindDrain ==
      /\ A' = [A EXCEPT !.s = [x \in 1..Cap |-> IF x >= L.lo /\ x <= L.hi THEN [A.s[x] EXCEPT !.st = "d"] ELSE A.s[x]]]
   /\ L' = [L EXCEPT !.phase = "leaky"] /\ pc' = "done"
 
+\* ---- entry.rs ------------------------------------------------------------
+\* entry(k) scans; Occupied keeps the slot index and drops k at once, Vacant keeps k.
+\* The harness runs one method chain per call (exec.rs exec_entry).
+VArg == IF L.op.m \in EntryTakesV THEN <<VObj(L.op.v.vt)>> ELSE <<>>
+EntryAfter ==
+  /\ pc = "en_after"
+  /\ UNCHANGED <<A, T, budget, viol, hist>>
+  /\ IF L.found # 0
+     THEN pc' = "dropping" /\ L' = GoDrop([L EXCEPT !.own = VArg, !.idx = L.found], <<DropK(L.op.k.kt)>>, "en_occ")
+     ELSE pc' = "en_vac" /\ L' = L
+EntryOcc ==
+  /\ pc = "en_occ"
+  /\ UNCHANGED <<T, budget>>
+  /\ LET m == L.op.m
+         i == L.idx
+         ok == i >= 1 /\ i <= A.len /\ A.s[i].st = "l" IN
+     /\ viol' = Note(viol, ok, "an occupied entry refers to a slot that holds no live element")
+     /\ CASE m \in {"or_insert", "or_insert_with", "or_insert_with_key", "vac_insert"} ->      \* the unused value / closure is dropped
+               pc' = "dropping" /\ L' = GoDrop([L EXCEPT !.own = <<>>], LocalDrops(VArg), "done") /\ UNCHANGED <<A, hist>>
+          [] m = "and_modify" ->                                                               \* closure runs, then or_insert drops v
+               /\ hist' = Append(hist, Cb("f", 0, 0)) /\ UNCHANGED A
+               /\ \/ Inject
+                  \/ UNCHANGED budget /\ pc' = "dropping" /\ L' = GoDrop([L EXCEPT !.own = <<>>], LocalDrops(VArg), "done")
+          [] m = "occ_insert" ->
+               A' = [A EXCEPT !.s[i].vt = L.op.v.vt] /\ L' = [L EXCEPT !.own = <<>>] /\ pc' = "done" /\ UNCHANGED hist
+          [] m = "occ_remove" ->
+               /\ A' = RIR(A, i) /\ UNCHANGED hist
+               /\ pc' = "dropping" /\ L' = GoDrop([L EXCEPT !.own = <<>>], <<DropK(A.s[i].kt)>>, "done")   \* (value in the return place)
+          [] m = "occ_remove_entry" -> A' = RIR(A, i) /\ L' = L /\ pc' = "done" /\ UNCHANGED hist
+          [] OTHER -> pc' = "done" /\ L' = L /\ UNCHANGED <<A, hist>>
+EntryVac ==
+  /\ pc = "en_vac"
+  /\ UNCHANGED <<A, T, viol>>
+  /\ LET m == L.op.m
+         k == L.op.k
+         ins(vt) == /\ pc' = "scan" /\ L' = StartII(L, "A", k, vt, FALSE, FALSE, "en_ii_tail") IN
+     CASE m \in {"or_insert", "vac_insert", "and_modify"} -> ins(L.op.v.vt) /\ UNCHANGED <<budget, hist>>
+       [] m \in {"or_insert_with", "or_insert_with_key"} ->
+            /\ hist' = Append(hist, Cb("f", 0, 0))
+            /\ \/ /\ MayPanic /\ budget' = budget - 1 /\ pc' = "unwind"      \* the running closure (holding v) dies before the entry
+                  /\ L' = [Panic(L, "injected") EXCEPT !.own = VArg \o <<KObj(k.kt)>>]
+               \/ (UNCHANGED budget /\ ins(L.op.v.vt))
+       [] m = "or_default" ->
+            /\ hist' = Append(hist, Cb("u", 0, 0))
+            /\ (Inject \/ (UNCHANGED budget /\ ins(31)))
+       [] m = "vac_into_key" -> pc' = "done" /\ L' = [L EXCEPT !.own = <<>>] /\ UNCHANGED <<budget, hist>>
+       [] OTHER ->      \* key, vac_key, and the Occupied-only methods: the value (if any), then the entry with its key, are dropped
+            pc' = "dropping" /\ L' = GoDrop([L EXCEPT !.own = <<>>], LocalDrops(VArg \o <<KObj(k.kt)>>), "done") /\ UNCHANGED <<budget, hist>>
+\* VacantEntry::insert: `let (index, _) = insert_ii(..)`; a displaced pair (only possible when
+\* comparisons lie) is dropped on the spot; then value_mut(index)
+EntryIITail ==
+  /\ pc = "en_ii_tail"
+  /\ UNCHANGED <<A, T, budget, hist>>
+  /\ viol' = Note(viol, L.idx >= 1 /\ L.idx <= A.len /\ A.s[L.idx].st = "l", "VacantEntry::insert returned a reference to a slot that holds no live element")
+  /\ IF L.ex = <<>> THEN pc' = "done" /\ L' = L
+     ELSE pc' = "dropping" /\ L' = GoDrop(L, <<DropK(L.ex[1]), DropV(L.ex[2])>>, "done")
+
+\* ---- map.rs insert_i (insert_unchecked), inside its contract -----------------
+\* explicit loop; a found pair is READ OUT of its slot and written back with the new value
+InsertUnchecked ==
+  /\ pc = "iu"
+  /\ UNCHANGED T
+  /\ LET i == L.i
+         k == L.op.k IN
+     IF i > A.len THEN        \* not found: len += 1, then the slot is written (no callback in between)
+       /\ viol' = Note(viol, A.len < Cap, "insert_unchecked wrote beyond the capacity")
+       /\ A' = IF A.len < Cap THEN [A EXCEPT !.len = A.len + 1, !.s[A.len + 1] = LiveSlot(k.c, k.kt, L.op.v.vt)] ELSE A
+       /\ pc' = "done" /\ L' = [L EXCEPT !.own = <<>>] /\ UNCHANGED <<budget, hist>>
+     ELSE
+       /\ hist' = Append(hist, Cb("e", A.s[i].kt, k.kt))
+       /\ viol' = Note(viol, A.s[i].st = "l", "a key comparison read a slot that holds no live element")
+       /\ \/ Inject /\ UNCHANGED A
+          \/ /\ UNCHANGED budget
+             /\ IF A.s[i].c = k.c
+                THEN \* item_read(i) moves the pair out; item_write(i, (old_k, v)); (k, old_v) goes back to the caller
+                     /\ A' = [A EXCEPT !.s[i].vt = L.op.v.vt]
+                     /\ pc' = "dropping" /\ L' = GoDrop([L EXCEPT !.own = <<>>], <<DropK(k.kt)>>, "done")
+                ELSE pc' = "iu" /\ L' = [L EXCEPT !.i = i + 1] /\ UNCHANGED A
+
 \* ==================================================================== spec ==
 Init == A = Fresh /\ T = NoT /\ pc = "idle" /\ L = L0 /\ budget = 0 /\ viol = "none" /\ hist = <<>>
 
@@ -385,6 +483,7 @@ Next ==
   \/ \E op \in AllOps : Start(op)
   \/ ScanStep \/ IIAfter \/ DropStep \/ (Unwind /\ L.phase # "count") \/ UnwindDrain
   \/ LookupAfter \/ InsertTail \/ RetainStep \/ ClearStart \/ ClearStep \/ DropStepC
+  \/ EntryAfter \/ EntryOcc \/ EntryVac \/ EntryIITail \/ InsertUnchecked
   \/ DrainStart \/ DrainNext \/ DrainDebug \/ DrainDrop \/ DrainCount
   \/ Done
 Spec == Init /\ [][Next]_vars
